@@ -35,6 +35,8 @@ func runC19(x *Ctx) {
 	x.C.Rule("C19.R4", "validateKey: nil / wrong size / all-zero keys refused", 7)
 	x.C.Rule("C19.R5", "plaintext confinement in AddEncrypted; getters decrypt GetBytes", 4)
 	x.C.Rule("C19.R6", "WithEncryptedMeta* options call AddEncrypted with their own parameters", 4)
+	x.C.Rule("C19.R7", "no decrypted / stored bytes are views into pooled memory", 2)
+	x.poolDiscipline("C19.R7", "pkg/meta", "pkg/meta/internal/crypto")
 
 	// R1 who-may-call
 	whoCalls := func(prefix string, allowed map[string]bool, key string) {
